@@ -331,3 +331,115 @@ func factListHas(fs []Fact, pred func(Fact) bool) bool {
 	}
 	return false
 }
+
+// rereadWithoutSuccess: in f, a call accepted by isRead can be reached again
+// (itself or another such call) from a read call over a route that never
+// established "err == nil" for an error variable assigned by one of the read
+// calls. Returns the offending first read, or nil.
+func (p *Prog) rereadWithoutSuccess(f *Func, isRead func(c *ast.CallExpr) bool) *ast.CallExpr {
+	g := p.CFG(f)
+	var reads []*ast.CallExpr
+	errObjs := map[types.Object]bool{}
+	walkBody(f, func(n ast.Node) bool {
+		if c, ok := n.(*ast.CallExpr); ok && isRead(c) {
+			reads = append(reads, c)
+		}
+		if as, ok := n.(*ast.AssignStmt); ok && len(as.Rhs) == 1 {
+			if c, ok := unparen(as.Rhs[0]).(*ast.CallExpr); ok && isRead(c) {
+				for _, l := range as.Lhs {
+					if id, ok := unparen(l).(*ast.Ident); ok && id.Name != "_" && isErrType(p.TypeOf(id)) {
+						errObjs[p.ObjOf(id)] = true
+					}
+				}
+			}
+		}
+		return true
+	})
+	okEdge := func(e *Edge) bool {
+		for _, ft := range p.FactsOfCond(e.Cond, e.Val) {
+			if ft.Op == "==" && ft.Val && p.isNilExpr(ft.Y) {
+				if id, ok := unparen(ft.X).(*ast.Ident); ok && errObjs[p.ObjOf(id)] {
+					return false
+				}
+			}
+		}
+		return true
+	}
+	readBlocks := map[*Block]bool{}
+	locs := map[*ast.CallExpr]Loc{}
+	for _, c := range reads {
+		if loc, ok := g.Locate(c); ok {
+			readBlocks[loc.B] = true
+			locs[c] = loc
+		}
+	}
+	for _, c := range reads {
+		loc, ok := locs[c]
+		if !ok {
+			continue
+		}
+		// a second read later in the same block, before any test
+		for i := loc.I + 1; i < len(loc.B.Nodes); i++ {
+			if p.nodeHasCall(loc.B.Nodes[i], func(x *ast.CallExpr) bool { return isRead(x) && x != c }) {
+				return c
+			}
+		}
+		var starts []*Block
+		for _, e := range loc.B.Succs {
+			if okEdge(e) {
+				starts = append(starts, e.To)
+			}
+		}
+		reach := g.Reach(starts, okEdge)
+		for b := range readBlocks {
+			if reach[b] {
+				return c
+			}
+		}
+	}
+	return nil
+}
+
+func isErrType(t types.Type) bool {
+	return t != nil && types.Identical(t, types.Universe.Lookup("error").Type())
+}
+
+// cacheIncoherence: fields read by reader other than inputs (and other than
+// sync-typed fields) that some function writing an input field does not write
+// too: a memo of a value derived from inputs must be reset wherever an input
+// changes. skip names constructors.
+func (p *Prog) cacheIncoherence(reader *Func, inputs []string, skip func(f *Func) bool) []string {
+	in := map[string]bool{}
+	for _, n := range inputs {
+		in[n] = true
+	}
+	var extra []*types.Var
+	for fv := range p.Effects(reader).Reads {
+		if in[p.FieldName(fv)] || p.isSyncType(fv.Type()) && !strings.Contains(typeStr(fv.Type()), "atomic.") {
+			continue // mutexes, channels, wait groups are not cached values; atomics can be
+		}
+		if !in[p.FieldName(fv)] {
+			extra = append(extra, fv)
+		}
+	}
+	var out []string
+	for _, x := range extra {
+		for _, f := range p.AllFuncs {
+			if f.Body == nil || (skip != nil && skip(f)) || f == reader {
+				continue
+			}
+			eff := p.Effects(f)
+			writesInput := false
+			for fv := range eff.Writes {
+				if in[p.FieldName(fv)] {
+					writesInput = true
+				}
+			}
+			if writesInput && !eff.Writes[x] {
+				out = append(out, p.FieldName(x)+" (read by "+reader.Name+") is not reset by "+f.Name)
+			}
+		}
+	}
+	sort.Strings(out)
+	return out
+}
